@@ -122,6 +122,10 @@ def run(case):
     if (dt.kind == "c" or (dt.kind == "f" and dt.itemsize > 8)) and op != "getcol" and op != "col_counts":
         wide_ = np.clongdouble if dt.kind == "c" else np.longdouble
         ok = same_dtype(g.dtype, dt) and bool(np.allclose(g.astype(wide_), exp.astype(wide_), rtol=1e-6 if dt.itemsize == 8 and dt.kind == "c" else 1e-12, atol=0, equal_nan=True))
+        if ok and case.get("exact") and op.endswith("sum0"):
+            # the cells and every partial total are exactly representable in the element type: the totals are exact, whatever the order of addition
+            ok = bool(np.array_equal(g.astype(wide_), exp.astype(wide_)))
+            tags.append("exact-in-extended-precision")
     elif case.get("vclass") == "bigfloat" and op.endswith("mean0"):
         # the element type can hold every element and every column mean, but not the column total: the mean must still be finite
         ok = bool(np.all(np.isfinite(g.astype(np.float64)))) and np.allclose(g.astype(np.float64), exp, rtol=1e-3 if dt.itemsize == 2 else 1e-6, atol=0)
@@ -319,6 +323,13 @@ def directed():
             for op_ in ("sum0", "np.sum0", "mean0", "col_counts", "getcol"):
                 for recv_ in ("fresh", "lazyrows"):
                     yield dict(mk_case(lens_, "bool", vals_, op_, 0, recv_, "small"), boolbytes=True)
+    # extended precision: every cell is an exact double, the column totals are not (2**60 next to 1, 2**63 next to 3)
+    for lens_ in ([2, 1, 2], [1, 1, 1, 1], [3, 0, 3]):
+        tot_ = sum(lens_)
+        for big_ in (2.0 ** 60, 2.0 ** 63, -2.0 ** 62):
+            vals_ = [big_ if i % 3 == 0 else float(1 + i % 4) for i in range(tot_)]
+            for op_ in ("sum0", "np.sum0", "mean0"):
+                yield dict(mk_case(lens_, "longdouble", vals_, op_, 0, "fresh", "small"), exact=True)
     # complex and extended-precision elements
     for dtype_ in gen.DT_EXOTIC:
         for lens_ in ([2, 0, 3, 1], [4], [1, 5, 0, 2]):
